@@ -1046,6 +1046,8 @@ fn cmd_run(args: &[String]) -> i32 {
     let count: u64 = arg(args, "--count").unwrap_or("100").parse().expect("--count");
     let out_path = arg(args, "--out").expect("--out FILE");
     let hash_every: u64 = arg(args, "--hash-every").unwrap_or("1").parse().expect("--hash-every");
+    // alternatively: record the event-log hash of the first K runs of this range only
+    let hash_first: Option<u64> = arg(args, "--hash-first").map(|v| v.parse().expect("--hash-first"));
     let max_violations: u64 = arg(args, "--max-violations").unwrap_or("12").parse().expect("--max-violations");
     let t0 = Instant::now();
     let mut st = Stats::default();
@@ -1068,7 +1070,11 @@ fn cmd_run(args: &[String]) -> i32 {
         if out.conc.overflow {
             st.inc("event_buffer_overflow_runs", 1);
         }
-        if index % hash_every == 0 {
+        let want_hash = match hash_first {
+            Some(k) => index - start < k,
+            None => index % hash_every == 0,
+        };
+        if want_hash {
             hashes.push((index, h));
         }
         if samples.len() < 2 && nontrivial && v.is_none() {
